@@ -31,6 +31,11 @@ TAppend == E.ev \in {"append", "sink_byte", "sink_word", "sink_dword", "sink_qwo
            /\ (E.ev = "sink_dword" => Len(E.arg) = 4) /\ (E.ev = "sink_qword" => Len(E.arg) = 8)
            /\ Step(AppendNext(acc, E.arg), Norm(ref + PlainSum(E.arg)))
 TDelete == E.ev = "delete" /\ Step(DeleteNext(acc, E.arg), Norm(ref - PlainSum(E.arg)))
+\* a slice of E.n equal bytes E.b (too long to log): the sum of the slice in closed form, factor by factor below 2^31
+FillSum256 == ((E.n % 256) * E.b) % 256
+FillSumRef == ((E.n % RefMod) * E.b) % RefMod
+TFill == \/ E.ev = "append_fill" /\ Step((acc + FillSum256) % 256, Norm(ref + FillSumRef))
+         \/ E.ev = "delete_fill" /\ Step((acc + 256 - FillSum256) % 256, Norm(ref - FillSumRef))
 
 \* the complete single-byte transition table from one state, recorded as one event
 TTable ==
@@ -42,7 +47,7 @@ TTable ==
            [l |-> l, ev |-> E.ev, what |-> "transition_table", s |-> E.s, run |-> Get(E, "run", -1)])
   /\ UNCHANGED <<acc, ref>>
 
-TNext == l <= NRec /\ l' = l + 1 /\ (TReset \/ TAdd \/ TSub \/ TAppend \/ TDelete \/ TTable)
+TNext == l <= NRec /\ l' = l + 1 /\ (TReset \/ TAdd \/ TSub \/ TAppend \/ TDelete \/ TFill \/ TTable)
 TSpec == TInit /\ [][TNext]_tvars
 Done == DoneMsg(l)
 =============================================================================
